@@ -343,6 +343,7 @@ class RefSdoServer:
                           "ackseq": 0, "segs": [], "last_seen": False, "gen": 0,
                           "ooo": 0, "subblocks": 0, "retx": 0}
             self.bd_accepted = []
+            self.bd_enders = []     # segment frames that ended a sub-block (made the server acknowledge)
             self._arm_stall()
             self._send(bytes([0xA0 | (4 if self.style.crc else 0), d[1], d[2], sub, blk, 0, 0, 0]))
             return
@@ -400,6 +401,7 @@ class RefSdoServer:
     stalled = False
     bd_stats = None
     bd_accepted = ()
+    bd_enders = ()
 
     def _bd_segment(self, d):
         st = self.state
@@ -430,6 +432,7 @@ class RefSdoServer:
             st["ooo"] += 1
         if seq == st["blksize"] or c:
             # end of this sub-block
+            self.bd_enders.append(bytes(d))
             ack = st["ackseq"]
             st["subblocks"] += 1
             if ack != st["blksize"] and not (c and in_order):
